@@ -77,7 +77,7 @@ def emit(ctx, docs):
     with ThreadPoolExecutor(16) as ex: return [x for part in ex.map(work, parts) for x in part]
 
 
-def spin_traces(ctx, docs):
+def spin_traces(ctx, docs, steps=20000):
     H = emit(ctx, docs)
     N = ctx.driver_lines("names", ["x\t" + charts.sexpr(d) for d in docs], timeout=1800)
     workdir = tempfile.mkdtemp(prefix="c06-", dir=WORK)
@@ -89,7 +89,7 @@ def spin_traces(ctx, docs):
             d = os.path.join(workdir, "m%d" % i); os.makedirs(d)
             with open(os.path.join(d, "m.pml"), "w", encoding="latin-1") as f: f.write(pml)
             try:
-                p = subprocess.run(["spin", "-u20000", "m.pml"], cwd=d, stdout=subprocess.PIPE, stderr=subprocess.STDOUT, universal_newlines=True, timeout=60)
+                p = subprocess.run(["spin", "-u%d" % steps, "m.pml"], cwd=d, stdout=subprocess.PIPE, stderr=subprocess.STDOUT, universal_newlines=True, timeout=60)
                 text = p.stdout
             except subprocess.TimeoutExpired:
                 return ["SPIN:timeout"]
@@ -108,7 +108,7 @@ def suite(ctx, name, docs):
     S = spin_traces(ctx, docs)
     lines = [E.case_line("large", d, [], "promela", NV) for d in docs]
     H, M = E.run_batches(ctx, lines)
-    st = dict(inputs=len(docs), agree=0, refused=0, queue_bound=0, spin_errors=0, violations=0, i_ne_m=0, tokens=0, known=0)
+    st = dict(inputs=len(docs), agree=0, refused=0, queue_bound=0, resimulated=0, spin_errors=0, violations=0, i_ne_m=0, tokens=0, known=0)
     for d, s, h, m in zip(docs, S, H, M):
         if s and s[0].startswith("EMIT:EXC"): st["refused"] += 1; continue
         if s and s[0].startswith("SPIN") and "d_step_blocks" in s[0]:
@@ -117,6 +117,10 @@ def suite(ctx, name, docs):
             st["queue_bound"] += 1; continue
         want = abs_interp(m.split(" "), pseudo_ids(d))
         s = abs_interp(s, pseudo_ids(d))
+        if "DIVERGE" not in want and len(s) < len(want) and want[:len(s)] == s:
+            # a prefix: either the model stops early, or the simulation was cut off by spin's step bound (-u; a model that waits
+            # for events idles up to that bound, so the cut itself says nothing): simulate again with 100 times the steps
+            s = abs_interp(spin_traces(ctx, [d], steps=2000000)[0], pseudo_ids(d)); st["resimulated"] += 1
         st["tokens"] += len(s)
         if h != m: st["i_ne_m"] += 1
         if "DIVERGE" in want:
@@ -139,14 +143,14 @@ def suite(ctx, name, docs):
         if len(ctx.violations) < 4:
             def pred(d2, _):
                 if c01.classify(d2) or charts.has_nested_targetless_pair(d2): return False
-                s2 = spin_traces(ctx, [d2])[0]
+                s2 = spin_traces(ctx, [d2], steps=200000)[0]
                 _, m2 = E.run_batches(ctx, [E.case_line("large", d2, [], "promela", NV)], want_harness=False, nproc=1)
                 w2 = abs_interp(m2[0].split(" "), pseudo_ids(d2)); s2 = abs_interp(s2, pseudo_ids(d2))
                 if s and s[0].startswith("SPIN"): return bool(s2) and s2[0].startswith("SPIN") and "d_step_blocks" not in s2[0]
                 return w2 != s2 and "DIVERGE" not in w2 and not (s2 and s2[0].startswith(("SPIN", "EMIT")))
             try: d2, _ = shrink.shrink(d, [], pred, max_rounds=25) if not getattr(d, "pml_xml", None) else (d, None)
             except Exception: d2 = d
-            s2 = spin_traces(ctx, [d2])[0]
+            s2 = spin_traces(ctx, [d2], steps=2000000)[0]
             _, m2 = E.run_batches(ctx, [E.case_line("large", d2, [], "promela", NV)], want_harness=False, nproc=1)
             w2 = abs_interp(m2[0].split(" "), pseudo_ids(d2)); s2 = abs_interp(s2, pseudo_ids(d2))
             k = E.first_diff(w2, s2)
@@ -202,13 +206,14 @@ def run(ctx):
     s1 = suite(ctx, "promela-random", gen(rng, 150 if quick else 5000))
     s2 = suite(ctx, "promela-history-revisit", E.history_revisit_selfdriven(rng, 40 if quick else 1200))
     s3 = suite(ctx, "promela-parallel-done", E.selfdriven(E.parallel_done_cases(rng, 30 if quick else 1000)))
+    s3b = suite(ctx, "promela-parallel-done-same-step", E.selfdriven(E.parallel_done_simul_cases(rng, 30 if quick else 1000)))
     s4 = suite(ctx, "promela-nested-if", [d for d, _ in E.nested_if_cases(rng, 40 if quick else 1500, NV)])
     s5 = suite(ctx, "promela-delays", delay_cases(rng, 40 if quick else 1200))
-    ctx.coverage["evaluations"] = s1["inputs"] + s2["inputs"] + s3["inputs"] + s4["inputs"] + s5["inputs"]
+    ctx.coverage["evaluations"] = s1["inputs"] + s2["inputs"] + s3["inputs"] + s3b["inputs"] + s4["inputs"] + s5["inputs"]
     ctx.coverage["distinct_nontrivial"] = s1["agree"]
     ctx.coverage["rule"] = ("random charts of 3-8 states with the promela datamodel (two integer variables; parallel, history, finals, internal/targetless/multi-target/eventless transitions; "
                             "raise/send to self/assign/if/log in every kind of block; conditions on variables and configuration), interpreted without outside events: the chart's own sends are the external events; "
-                            "plus the history-revisit family (a compound state with shallow/deep history left and re-entered through the history 2-4 times with a different child active each time, the event history sent by a boot state) the parallel-done family (regions with or without history children all reach their finals) and executable content with <if>/<elseif>/<else> nested three deep; "
+                            "plus the history-revisit family (a compound state with shallow/deep history left and re-entered through the history 2-4 times with a different child active each time, the event history sent by a boot state) the parallel-done family (regions with or without history children all reach their finals), the same-step family (several regions enter their finals in one microstep - shared event or multi-target transition - beside an observer region that counts the done events) and executable content with <if>/<elseif>/<else> nested three deep; "
                             "non-trivial = models whose whole simulation agrees with the interpreter")
     ctx.assumptions += ["spin's simulator executes the model faithfully; one simulation run suffices because the emitted model has one process and no nondeterministic choice in the compared fragment",
                         "nested machines and LTL verification (pan) are outside the compared fragment; delayed sends are compared in the family promela-delays only (sends of one block with distinct delays: due order = order of the delays)",
@@ -225,7 +230,7 @@ def replay(ctx, path):
         d = charts.from_sexpr(f[1])
         px = [x for x in f if x.startswith("PMLXML=")]
         if px: d.pml_xml = bytes.fromhex(px[0][7:]).decode()
-        s = spin_traces(ctx, [d])[0]
+        s = spin_traces(ctx, [d], steps=2000000)[0]
         _, m = E.run_batches(ctx, [E.case_line("large", d, [], "promela", NV)], want_harness=False, nproc=1)
         print("chart:", f[1]); print("P :", " ".join(abs_interp(s, pseudo_ids(d)))[:2500]); print("I :", " ".join(abs_interp(m[0].split(" "), pseudo_ids(d)))[:2500])
     return 0
